@@ -1,6 +1,7 @@
 import Driver.Util
 import Driver.DictRt
 import Driver.Codec
+import Driver.Stream
 /-!
   Driver — reads correspondence lines `domain op args… => impl-output` on stdin and prints,
   per line, tab-separated: index, agree|DISAGREE|BADLINE, Spec verdicts (comma separated or
@@ -46,6 +47,13 @@ def handle (st : St) (idx : Nat) (line : String) : St × String :=
           | [mode, cs] => (st, emit idx impl (judgeFind dict ((kvNat rest "app").getD 0) as mode (parseCodes cs) implToks))
           | _ => bad)
        | _, _ => bad)
+    | "stream" :: "read" :: rest =>
+      (match fromHex (rest.getLast?.getD "") with
+       | some bs =>
+         let fin := if kv rest "fin" = some "err" then Fin.err else Fin.eof
+         let sizes := ((kv rest "frags").getD "").splitOn "," |>.filterMap String.toNat?
+         (st, emit idx impl (judgeStream dict fin ((kv rest "via").getD "direct") sizes bs implToks))
+       | none => bad)
     | _ => bad
   | _ => (st, s!"{idx}\tBADLINE\t-\t0\t-\t-")
 
